@@ -550,7 +550,7 @@ fn run_cases(cases: Vec<J>, threads: usize) {
                     ev["kind"] = json!(k);
                     per.push(ev);
                 }
-                out.push(json!({"i": i, "per": per, "exp": case["exp"], "names": case["names"], "dec_exp": case["dec_exp"]}).to_string());
+                out.push(json!({"i": i, "per": per, "exp": case["exp"], "names": case["names"], "dec_exp": case["dec_exp"], "depth": case["depth"]}).to_string());
             }
             out
         }));
